@@ -3,7 +3,8 @@ from .C02 import e2_jobs, META as _M
 
 META = dict(_M)
 CLASSES = ["contracts.C07_all:TensorProduct", "contracts.C07_all:ProductStatistics", "contracts.C07_all:PermutationMatrix",
-           "contracts.C07_all:EmbeddingStatePovm", "contracts.C07_all:EmbeddingChannels"]
+           "contracts.C07_all:EmbeddingStatePovm", "contracts.C07_all:EmbeddingChannels", "contracts.C07_all:EmbeddingPermutation",
+           "contracts.C07_all:EmbeddingTwoQutrits"]
 
 
 def jobs(tier, seed):
